@@ -31,11 +31,14 @@ class Enum:
 
 
 class Seq:
-    """Vec / array / slice storage, concrete length"""
-    __slots__ = ("elems",)
+    """Vec / array / slice storage, concrete length (ety: element type name when known, for trait dispatch on empty vectors)"""
+    __slots__ = ("elems", "ety")
 
-    def __init__(self, elems):
+    def __init__(self, elems, ety=None):
         self.elems = tuple(elems)
+        self.ety = ety
+        if ety is None and self.elems and isinstance(self.elems[0], (Struct, Enum)):
+            self.ety = self.elems[0].ty
 
     def __repr__(self):
         return f"[{', '.join(map(repr, self.elems))}]"
